@@ -61,4 +61,9 @@ pub enum StateFSMError {
     /// Errors bubbled from DataKeeper.
     #[error(transparent)]
     KeeperError(#[from] KeeperError),
+
+    /// Errors occurred when a next instruction of a fold over a stream is met outside of the iteration
+    /// it belongs to, e.g. inside a nested fold that calls it several times for one iteration.
+    #[error("fold FSM has no active iteration to continue or to finish")]
+    FoldIterationNotFound,
 }
